@@ -20,7 +20,11 @@ KANI = "Kani 0.68.0 / CBMC 6.11.0 / CaDiCaL soundness; Kani's MIR-to-goto transl
 
 SPECS = {}
 
+DIFFVAL = dict(name="validation of the trusted base by sampling (not the verdict): model-deku rs1090 == real-deku rs1090 on structured random frames; recording serializer == serde_json on accepted ones",
+               cmd="python3 tools/diffval.py 6000")
+
 SPECS["C01"] = dict(
+    prechecks=[DIFFVAL],
     feature="c01",
     functions=["rs1090::decode::bds::bds05..bds65 derived readers and field readers (all 19 payload types, via X::try_from / from_bytes at the offset their caller uses)",
                "rs1090::decode::{AC13Field,IdentityCode}::read, decode_id13, gray2alt", "Display impls of the ADS-B payload types",
@@ -86,6 +90,7 @@ SPECS["C01"] = dict(
 )
 
 SPECS["C02"] = dict(
+    prechecks=[DIFFVAL],
     feature="c02",
     functions=["rs1090::decode::crc::modes_checksum", "rs1090::decode::crc::CRC_TABLE", "rs1090::decode::Message::from_reader_with_ctx (DF17 rejection arm)",
                "rs1090::decode::IcaoParity (map to crc context)", "rs1090::decode::Message::try_from", "DF::from_reader_with_ctx arms 0,4,5,16,17,20,21"],
@@ -121,6 +126,7 @@ SPECS["C02"] = dict(
 )
 
 SPECS["C03"] = dict(
+    prechecks=[DIFFVAL],
     feature="c03",
     functions=["field readers of rs1090::decode::bds::{bds05,bds06,bds08,bds09,bds20,bds40,bds50,bds60,bds62}", "rs1090::decode::ICAO reader", "callsign_read / CHAR_LOOKUP", "read_groundspeed (BDS 0,6 movement)"],
     trusted_base=[KANI, DEKU, FMT, TRACING, "libm::atan2 / hypot replaced by contract stubs WITH GHOST STATE (arguments and results recorded): argument order, signs, scale and wrap of BDS 0,9 track/speed are inside the check, only libm's numerical quality is trusted"],
@@ -142,6 +148,7 @@ SPECS["C03"] = dict(
 )
 
 SPECS["C04"] = dict(
+    prechecks=[DIFFVAL],
     feature="c04", feature_thorough="c04lon",
     functions=["rs1090::decode::cpr::airborne_position", "rs1090::decode::cpr::nl", "rs1090::decode::cpr::modulo", "libm::floor",
                "rs1090::decode::bds::bds05::AirbornePosition::try_from (to obtain the reports)"],
@@ -155,6 +162,7 @@ SPECS["C04"] = dict(
     ] + [H("c04::lat_%s%02d_%s_last" % (hm, z, o), tier=("quick" if (hm, z) in (("n", 0), ("n", 7), ("n", 14), ("s", 0), ("s", 14)) else "thorough"), timeout=3600, mem_gb=4,
            bounds="even count in latitude zone %d (%s), odd count any; cells intersecting within [-90, 90]" % (z, "north" if hm == "n" else "south"))
          for hm in ("n", "s") for z in range(15) for o in ("even", "odd")] + [
+        H("c04::nl_table_vs_formula", timeout=1800, mem_gb=3, bounds="every even-report cell latitude in [-90, 90] (30 x 2^17 points)"),
         H("c04::same_parity_none", timeout=600, mem_gb=2, bounds="all 2^68 count combinations x 2 parities"),
         H("c04::range_any_pair", timeout=3600, mem_gb=6, bounds="all 2^68 count combinations x 2 orders"),
     ] + [H("c04::lon_nl%02d_%s_last" % (n, o), tier=("quick" if n in (1, 2, 30, 59) else "thorough"), timeout=5400, mem_gb=4, bounds="NL = %d, F0 in [0, %d*2^17], F1 in [0, %d*2^17], cells intersecting" % (n, n, max(n - 1, 1)))
@@ -164,6 +172,7 @@ SPECS["C04"] = dict(
 )
 
 SPECS["C05"] = dict(
+    prechecks=[DIFFVAL],
     feature="c05", feature_thorough="c05lon",
     functions=["rs1090::decode::cpr::airborne_position_with_reference", "rs1090::decode::cpr::surface_position_with_reference", "rs1090::decode::cpr::nl", "libm::floor", "libm::fabs",
                "AirbornePosition::try_from / SurfacePosition::try_from (to obtain the reports)"],
@@ -184,6 +193,7 @@ SPECS["C05"] = dict(
 )
 
 SPECS["C07"] = dict(
+    prechecks=[DIFFVAL],
     feature="c07",
     functions=["derived Serialize of Message, DF, ADSB, ME, ControlField, DF20/DF21DataSelector and every BDS struct", "hand-written Serialize of ICAO, IcaoParity, IdentityCode, AirspeedSubsonic/SupersonicDecoding",
                "serde::__private::ser::{FlatMapSerializer, TaggedSerializer} (the real serde machinery that rejects non-flattenable shapes)", "TimedMessage Serialize, as_hex (hex::encode)"],
@@ -238,6 +248,7 @@ SPECS["C07"] = dict(
 )
 
 SPECS["C08"] = dict(
+    prechecks=[DIFFVAL],
     feature="c08",
     functions=["rs1090::decode::bds::{bds05,bds06,bds08,bds09,bds20,bds21,bds40,bds44,bds45,bds50,bds60,bds61,bds62} readers (same entry points as C01(a))",
                "squawk / 13-bit altitude of DF 4/5/20/21 headers: IdentityCode::read, AC13Field::read (decided for all 2^13 codes under C13)"],
@@ -284,6 +295,7 @@ SPECS["C11"] = dict(
 )
 
 SPECS["C13"] = dict(
+    prechecks=[DIFFVAL],
     feature="c13",
     functions=["rs1090::decode::decode_id13", "rs1090::decode::gray2alt", "rs1090::decode::AC13Field::read",
                "rs1090::decode::IdentityCode::read", "rs1090::decode::bds::bds05::decode_ac12 (via AirbornePosition::try_from)"],
@@ -321,6 +333,7 @@ SPECS["C14"] = dict(
 )
 
 SPECS["C15"] = dict(
+    prechecks=[DIFFVAL],
     feature="c15",
     functions=["rs1090::decode::flarm::Flarm::from_record", "derived Flarm reader", "Flarm::decode_btea", "btea", "mx", "fixk", "make_key", "obscure",
                "Flarm::decode_latitude", "decode_longitude", "decode_actype", "decode_groundspeed", "decode_track", "magic_value", "Address reader"],
@@ -338,7 +351,9 @@ SPECS["C15"] = dict(
         H("c15::total_len19", tier="thorough", timeout=900, mem_gb=3, bounds="length 19"),
         H("c15::total_len27", tier="thorough", timeout=2400, mem_gb=6, bounds="length 27"),
         H("c15::total_len40", tier="thorough", timeout=2400, mem_gb=6, bounds="length 40"),
-        H("c15::fields", timeout=2400, mem_gb=6, bounds="every plaintext block / address / timestamp / reference / true position in window"),
+        H("c15::fields_discrete", timeout=2400, mem_gb=6, bounds="every 160-bit plaintext block, address, timestamp, address kind; reference fixed"),
+        H("c15::position_lat", timeout=2400, mem_gb=5, bounds="every reference latitude in [-90, 90], every true latitude within (0x40000-2)*128e-7 deg of it, every altitude bits"),
+        H("c15::position_lon", timeout=2400, mem_gb=5, bounds="every reference longitude in [-180, 180], every true longitude within (0x80000-2)*128e-7 deg of it"),
     ] + [H("c15::cipher_word%d" % i, tier="thorough", timeout=7200, mem_gb=6, bounds="every 160-bit ciphertext, timestamp, address; word %d" % i) for i in range(5)],
 )
 
